@@ -186,6 +186,20 @@ def _b_tls_server_hello(a, b, c, data, flag):
     )
 
 
+def _b_tls_hello_random(a, b, c, data, flag):
+    """gmt_unix_time has a resolution of one second: the microsecond of the constructor argument is symbolic"""
+    import datetime  # pylint: disable=import-outside-toplevel
+    from cryptoparser.tls.subprotocol import (  # pylint: disable=import-outside-toplevel
+        TlsHandshakeHelloRandom, TlsHandshakeHelloRandomBytes
+    )
+    if not (a < 1000000 and (b == 0 or b == 59)):
+        return None
+    if len(data) > 1:
+        return None
+    return TlsHandshakeHelloRandom(datetime.datetime(2020, 1, 2, 3, 4, b, a),
+                                   TlsHandshakeHelloRandomBytes(bytearray(data + (28 - len(data)) * b'\x07')))
+
+
 def _b_ssl_error(a, b, c, data, flag):
     from cryptoparser.tls.record import SslRecord
     from cryptoparser.tls.subprotocol import SslErrorMessage, SslErrorType
